@@ -1312,6 +1312,8 @@ class Interp:
                 return c[k]
             except (IndexError, KeyError) as ex:
                 raise InterpError(type(ex).__name__, str(ex))
+        if isinstance(c, (int, float, Fraction, bool)) or c is None:
+            raise InterpError("TypeError", f"'{type(c).__name__}' object is not subscriptable")  # what Python raises
         self.unsupported(node, f"subscript of {type(c).__name__}")
 
     def _index_value(self, k):
